@@ -219,8 +219,10 @@ class Evaluator:
             return ("return", r.value)
         except _Raise as r:
             return ("raise", r.text)
-        except (_Break, _Continue):
-            raise AnalysisError("break/continue outside loop in analysed body")
+        except _Break:
+            return ("break", None)
+        except _Continue:
+            return ("continue", None)
 
     # -- statements --------------------------------------------------------
     def block(self, stmts, st):
@@ -253,7 +255,9 @@ class Evaluator:
             cur = self.ev(s.target, st)
             v = self.ev(s.value, st)
             new = Sym(f"({vtext(cur)} {type(s.op).__name__} {vtext(v)})")
-            if isinstance(cur, (int, float)) and isinstance(v, (int, float)) and not isinstance(cur, bool):
+            if isinstance(s.op, ast.Add) and isinstance(cur, list):
+                new = cur + (v if isinstance(v, list) else [Sym("*" + vtext(v))])
+            elif isinstance(cur, (int, float)) and isinstance(v, (int, float)) and not isinstance(cur, bool):
                 try:
                     new = _binop(s.op, cur, v)
                 except Exception:
@@ -341,11 +345,26 @@ class Evaluator:
             lid = f"{ittext}#L{st.counter}"
             i = 0
             broke = False
+            star = None
+            if concrete is not None and concrete and isinstance(concrete[-1], Sym) and concrete[-1].text.startswith("*") and not any(
+                isinstance(x, Sym) and x.text.startswith("*") for x in concrete[:-1]
+            ):
+                star = concrete[-1].text[1:]
+                concrete = concrete[:-1]
+            j = 0
             while True:
-                if concrete is not None:
-                    if i >= len(concrete):
-                        break
+                if concrete is not None and i < len(concrete):
                     item = concrete[i]
+                elif concrete is not None and star is None:
+                    break
+                elif concrete is not None:
+                    if j >= k:
+                        st.effect("loop-bound", star)
+                        break
+                    if not st.atom(f"more({star}#L{st.counter},{j})"):
+                        break
+                    item = Sym(f"{star}[{j}]", tag=("item", star, j))
+                    j += 1
                 else:
                     if i >= k:
                         # bound reached: assume exhausted (paths needing more are cut)
@@ -513,8 +532,10 @@ class Evaluator:
         if isinstance(e, ast.BinOp):
             l = self.ev(e.left, st)
             r_ = self.ev(e.right, st)
-            if isinstance(l, list) and isinstance(r_, list) and isinstance(e.op, ast.Add):
-                return l + r_
+            if isinstance(e.op, ast.Add) and (isinstance(l, list) or isinstance(r_, list)) and not isinstance(l, (str, int, float)) and not isinstance(r_, (str, int, float)):
+                ll = l if isinstance(l, list) else [Sym("*" + vtext(l))]
+                rr = r_ if isinstance(r_, list) else [Sym("*" + vtext(r_))]
+                return ll + rr
             if (
                 isinstance(l, (int, float, str))
                 and isinstance(r_, (int, float, str))
